@@ -29,6 +29,7 @@ type UnitSpec struct {
 	MaxRec     int      `json:"max_rec,omitempty"`
 	AppendDouble bool   `json:"append_double,omitempty"`
 	Reveal     bool     `json:"reveal,omitempty"`
+	RevealOnly []string `json:"reveal_only,omitempty"` // expand only these opaque spec functions (short names)
 	Paths      bool     `json:"paths,omitempty"`    // path mode (bounded lemmas): fork at branches, never merge
 	Ints       string   `json:"ints,omitempty"`     // "math": Go's int is a mathematical integer in this unit
 	Overflow   bool     `json:"overflow,omitempty"` // with ints=math: obligations that int arithmetic stays in 64 bits
@@ -163,11 +164,20 @@ func RunProperty(id, tier string) int {
 		if us.Tier == "thorough" && tier != "thorough" {
 			continue
 		}
+		if only := os.Getenv("B6VC_ONLY"); only != "" && !strings.Contains(us.Func, only) { // development aid
+			continue
+		}
 		np := true
 		if us.NoPanic != nil {
 			np = *us.NoPanic
 		}
 		opt := Options{Unroll: us.Unroll, UnwindMust: us.Complete, NoPanic: np, NoContract: map[string]bool{}, MaxInline: us.MaxInline, Reveal: us.Reveal}
+		if len(us.RevealOnly) > 0 {
+			opt.RevealOnly = map[string]bool{}
+			for _, n := range us.RevealOnly {
+				opt.RevealOnly[n] = true
+			}
+		}
 		if !us.Complete && us.Unroll > 0 {
 			opt.Bounded = us.Bounded
 			if opt.Bounded == "" {
@@ -188,7 +198,10 @@ func RunProperty(id, tier string) int {
 		if us.Ints == "math" && !us.Overflow {
 			notes.Assumed["int arithmetic treated as mathematical (no overflow obligations) in "+us.Func] = true
 		}
+		resetLimits()
+		startWatchdog()
 		x := NewExec(prog, opt, notes)
+		x.deadline = time.Now().Add(unitTimeLimit)
 		r := &unitRun{spec: us, x: x}
 		runs = append(runs, r)
 		fn := prog.FuncByName(us.Func)
@@ -270,26 +283,42 @@ func RunProperty(id, tier string) int {
 	// When a function contract fails, the lemmas that compose such contracts still pass
 	// (a caller only sees the callee's contract); they are then falsified as well, so that
 	// the violation comes with an input that fails on the real code.
-	funcFailed := false
+	failedFuncs := map[string]bool{}
 	for _, r := range runs {
 		if r.spec.Kind == "func" {
-			if r.err != nil {
-				funcFailed = true
-			}
+			bad := r.err != nil
 			for _, res := range r.results {
 				if !res.Obl.Cover && res.Status != Proved {
-					funcFailed = true
+					bad = true
 				}
+			}
+			if bad {
+				failedFuncs[r.spec.Func] = true
 			}
 		}
 	}
+	ftimeout := 20
+	if tier == "thorough" {
+		ftimeout = 90
+	}
+	type falsJob struct {
+		r    *unitRun
+		need map[string]*Result
+		fx   *Exec
+		fres []*Result
+		unroll int
+	}
+	var fjobs []*falsJob
 	for _, r := range runs {
 		if r.err != nil || r.spec.Kind != "lemma" {
 			continue
 		}
+		// a lemma that still passes is only worth falsifying when it (transitively) calls a
+		// function whose contract failed
+		reaches := len(failedFuncs) > 0 && reachesAny(r.fn, failedFuncs)
 		need := map[string]*Result{}
 		for _, res := range r.results {
-			if !res.Obl.Cover && res.Obl.Kind == "lemma" && res.Model == nil && (res.Status != Proved || funcFailed) {
+			if !res.Obl.Cover && res.Obl.Kind == "lemma" && res.Model == nil && (res.Status != Proved || reaches) {
 				need[res.Obl.Name] = res
 			}
 		}
@@ -316,28 +345,37 @@ func RunProperty(id, tier string) int {
 		}
 		fdir := filepath.Join(work, "falsify-"+sanitize(r.spec.Func))
 		os.MkdirAll(fdir, 0o755)
-		var fres []*Result
+		job := &falsJob{r: r, need: need, fx: fx, unroll: fopt.Unroll}
 		for _, o := range fx.Obls {
 			if _, ok := need[o.Name]; ok && !o.Cover {
-				fres = append(fres, prepare(fx.C, o, fdir))
+				job.fres = append(job.fres, prepare(fx.C, o, fdir))
 			}
 		}
+		fjobs = append(fjobs, job)
+	}
+	{
 		var fwg sync.WaitGroup
-		for _, fr := range fres {
-			fwg.Add(1)
-			go func(fr *Result) { defer fwg.Done(); runSolvers(fr, 60) }(fr)
+		fsem := make(chan struct{}, 6)
+		for _, job := range fjobs {
+			for _, fr := range job.fres {
+				fwg.Add(1)
+				fsem <- struct{}{}
+				go func(fr *Result) { defer fwg.Done(); defer func() { <-fsem }(); runSolvers(fr, ftimeout) }(fr)
+			}
 		}
 		fwg.Wait()
-		for _, fr := range fres {
+	}
+	for _, job := range fjobs {
+		for _, fr := range job.fres {
 			if fr.Status == Refuted && fr.Model != nil {
-				orig := need[fr.Obl.Name]
+				orig := job.need[fr.Obl.Name]
 				if orig.Status == Proved {
 					orig.Output = "discharged modularly (callee contracts), but a contract of a callee failed; "
 				}
 				orig.Model = fr.Model
 				orig.Status = Refuted
 				orig.Obl.ModelTerms = fr.Obl.ModelTerms
-				orig.Output += "\nfalsifier (contracts ignored, definitions revealed, loops unrolled " + fmt.Sprint(fopt.Unroll) + "x): " + fr.Solver + " sat"
+				orig.Output += "\nfalsifier (contracts ignored, definitions revealed, loops unrolled " + fmt.Sprint(job.unroll) + "x): " + fr.Solver + " sat"
 			}
 		}
 	}
@@ -585,4 +623,30 @@ func writeEvidence(id, tier string, seed int, spec *PropSpec, ev *evidenceExtra,
 	os.MkdirAll(filepath.Join(VerifDir(), "evidence"), 0o755)
 	bb, _ := json.MarshalIndent(doc, "", " ")
 	os.WriteFile(filepath.Join(VerifDir(), "evidence", id+".json"), bb, 0o644)
+}
+
+// reachesAny reports whether fn statically (transitively) calls one of the named functions.
+func reachesAny(fn *ssa.Function, names map[string]bool) bool {
+	seen := map[*ssa.Function]bool{}
+	var rec func(f *ssa.Function, depth int) bool
+	rec = func(f *ssa.Function, depth int) bool {
+		if f == nil || seen[f] || depth > 8 {
+			return false
+		}
+		seen[f] = true
+		if names[QualName(f)] {
+			return true
+		}
+		for _, b := range f.Blocks {
+			for _, ins := range b.Instrs {
+				if c, ok := ins.(ssa.CallInstruction); ok {
+					if cal := c.Common().StaticCallee(); cal != nil && rec(cal, depth+1) {
+						return true
+					}
+				}
+			}
+		}
+		return false
+	}
+	return rec(fn, 0)
 }
